@@ -528,9 +528,13 @@ async fn check_pred(ds: &Dataset, st: &State, fam: &str, index: &str, history: &
         let dk = if only_without.is_empty() && neg && only_with.iter().all(|u| null_uids.contains(u)) {
             // the suspected 3VL defect: the complement of an exact index answer contains the NULL rows
             "negation-over-indexed-nullable-column/index-returns-null-rows".to_string()
-        } else if ikind == "zonemap" && istable && only_with.is_empty() {
-            // the zone map answers in row addresses, which are not row ids on a stable-row-id table
-            "zonemap/stable-row-ids/index-drops-rows".to_string()
+        } else if (ikind == "zonemap" || ikind == "bloomfilter") && istable && only_with.is_empty() {
+            // zone maps / bloom filter blocks answer in row addresses, which are not row ids on a
+            // stable-row-id table
+            format!("{ikind}/stable-row-ids/index-drops-rows")
+        } else if only_with.is_empty() && history.contains(&HOp::CompactDefer) && ["zonemap", "bloomfilter", "ngram"].contains(&ikind.as_str()) {
+            // compaction with deferred index remap: rows of the rewritten fragment are taken as covered
+            format!("{ikind}/compaction-with-deferred-index-remap/index-drops-rows")
         } else if ikind == "ngram" && only_with.is_empty() {
             format!("ngram/contains-{}/index-drops-rows", q.lpred.as_ref().map(ngram_class).unwrap_or_default())
         } else {
